@@ -48,19 +48,23 @@ theorem C08B_snapshot_complete_partial (cap : Nat) (k : Kind) (os : List BOp) (h
 room the message is appended at the back, otherwise (mailbox full: drop-newest; receiver
 dropped meanwhile) nothing changes; no other mailbox is touched. -/
 theorem C08B_visit (b : BSt) (tid : Nat) (f : Flight) (m : Nat) (rest : List Nat)
-    (hf : flightOf b.flights tid = some f) (hrem : f.rem = m :: rest) (x : Nat) :
+    (hf : flightOf b.flights tid = some f) (hrem : f.rem = m :: rest) (hfree : b.held.contains m = false) (x : Nat) :
     bufOf (bdeliver b tid).q x =
       match b.q.rxs[x]? with
       | some y => if x = m ∧ y.live = true ∧ y.buf.length < y.cap then y.buf ++ [(f.t, f.v)] else y.buf
       | none => [] := by
   unfold bdeliver
-  simp only [hf, hrem]
+  simp only [hf, hrem, hfree, Bool.false_eq_true, if_false]
   exact bufOf_visit b.q m (f.t, f.v) x
 
-/-- **Publishing never blocks.** A send in progress is never disabled: each of its own steps
-either visits one more mailbox (the list of mailboxes still to visit gets shorter by one) or
-returns; it never waits for a receiver, whatever the mailboxes' occupancy. -/
-theorem C08B_send_progress (b : BSt) (tid : Nat) (f : Flight) (hf : flightOf b.flights tid = some f) :
+/-- **Publishing never blocks — provided no mailbox mutex is held across steps.** A send in
+progress whose next mailbox is not locked is enabled: its own step either visits one more mailbox
+(the list of mailboxes still to visit gets shorter by one) or returns; it never waits for a
+receiver, whatever the mailboxes' occupancy. The hypothesis is exactly the release of the mutex
+before parking (`C08B_lock_never_held`); without it the step is not enabled
+(`C08B_blocked_while_lock_held`). -/
+theorem C08B_send_progress (b : BSt) (tid : Nat) (f : Flight) (hf : flightOf b.flights tid = some f)
+    (hfree : ∀ m rest, f.rem = m :: rest → b.held.contains m = false) :
     (f.rem = [] ∧ flightOf (bdeliver b tid).flights tid = none) ∨
     (∃ m rest, f.rem = m :: rest ∧ flightOf (bdeliver b tid).flights tid = some { f with rem := rest }) := by
   obtain ⟨hfm, hft⟩ := flightOf_some b.flights tid f hf
@@ -76,6 +80,7 @@ theorem C08B_send_progress (b : BSt) (tid : Nat) (f : Flight) (hf : flightOf b.f
     simpa using this
   | cons m rest =>
     right; refine ⟨m, rest, rfl, ?_⟩
+    simp only [hfree m rest hrem, Bool.false_eq_true, if_false]
     simp only [flightOf]
     rw [List.find?_map]
     have hfind : b.flights.find? (fun g => g.tid == tid) = some f := hf
@@ -84,6 +89,66 @@ theorem C08B_send_progress (b : BSt) (tid : Nat) (f : Flight) (hf : flightOf b.f
       funext g; simp only [Function.comp]; split <;> rfl
     rw [hcomp, hfind]
     simp [hft]
+
+/-- the code's steps never leave a mailbox mutex held: a receiver unlocks before it parks -/
+theorem C08B_lock_never_held (b : BSt) (os : List BOp) (hcode : ∀ o, o ∈ os → o.isCode = true) (h0 : b.held = []) :
+    (brun b os).held = [] := by
+  induction os generalizing b with
+  | nil => exact h0
+  | cons o os ih =>
+    refine ih _ (fun o' h' => hcode o' (List.mem_cons_of_mem _ h')) ?_
+    have hc := hcode o (List.mem_cons_self ..)
+    cases o with
+    | api op => simp only [bstep, bapi]; split <;> exact h0
+    | begin tid h t v =>
+      simp only [bstep, bbegin]; split
+      · exact h0
+      · split
+        · exact h0
+        · split <;> exact h0
+    | deliver tid =>
+      simp only [bstep, bdeliver]; split
+      · exact h0
+      · split
+        · exact h0
+        · split <;> exact h0
+    | park r =>
+      simp only [bstep, bpark]; split
+      · exact h0
+      · split
+        · simpa using h0
+        · exact h0
+    | wake r => simp [bstep, bwake, h0]
+    | parkHolding r => simp [BOp.isCode] at hc
+
+/-- hence, on every schedule of the code's steps, a send in progress is always enabled -/
+theorem C08B_send_progress_code (cap : Nat) (k : Kind) (os : List BOp) (hcode : ∀ o, o ∈ os → o.isCode = true)
+    (tid : Nat) (f : Flight) (hf : flightOf (brun (binit cap k) os).flights tid = some f) :
+    (f.rem = [] ∧ flightOf (bdeliver (brun (binit cap k) os) tid).flights tid = none) ∨
+    (∃ m rest, f.rem = m :: rest ∧
+      flightOf (bdeliver (brun (binit cap k) os) tid).flights tid = some { f with rem := rest }) := by
+  apply C08B_send_progress _ tid f hf
+  intro m rest _
+  rw [C08B_lock_never_held (binit cap k) os hcode rfl]; rfl
+
+/-- … and it does depend on that release: while the mutex of the next mailbox is held (a
+receiver parked WITHOUT unlocking — not a step of the code, but what the code becomes if the
+`drop(guard)` before `park` is lost), the send's step changes nothing: the publisher waits. -/
+theorem C08B_blocked_while_lock_held (b : BSt) (tid : Nat) (f : Flight) (m : Nat) (rest : List Nat)
+    (hf : flightOf b.flights tid = some f) (hrem : f.rem = m :: rest) (hheld : b.held.contains m = true) :
+    bdeliver b tid = b := by
+  unfold bdeliver
+  simp only [hf, hrem, hheld, if_true]
+
+/-- concrete: receiver 0 parks holding its mutex; the send stays in flight however often the
+publisher is scheduled, until the receiver wakes -/
+theorem C08B_blocked_witness :
+    let os := [BOp.api (.subscribe 0 1), .parkHolding 0, .begin 7 0 1 10, .deliver 7, .deliver 7, .deliver 7]
+    (brun (binit 2 .sync) os).flights = [{ tid := 7, pid := 0, t := 1, v := 10, rem := [0] }] ∧
+    bufOf (brun (binit 2 .sync) os).q 0 = [] ∧
+    (brun (binit 2 .sync) (os ++ [.wake 0, .deliver 7, .deliver 7])).flights = [] ∧
+    bufOf (brun (binit 2 .sync) (os ++ [.wake 0, .deliver 7, .deliver 7])).q 0 = [(1, 10)] := by
+  decide
 
 /-- other threads' steps do not touch a send in progress -/
 theorem C08B_flight_untouched (b : BSt) (o : BOp) (tid : Nat) (f : Flight) (hf : flightOf b.flights tid = some f)
@@ -107,6 +172,9 @@ theorem C08B_flight_untouched (b : BSt) (o : BOp) (tid : Nat) (f : Flight) (hf :
         · simp only [flightOf, List.find?_append]
           have : b.flights.find? (fun g => g.tid == tid) = some f := hf
           rw [this]; rfl
+  | park r => simp only [bstep, bpark]; split <;> (try exact hf); split <;> exact hf
+  | wake r => exact hf
+  | parkHolding r => simp only [bstep, bpark]; split <;> (try exact hf); split <;> exact hf
   | deliver tid' =>
     have hne : tid' ≠ tid := fun he => ho (by rw [he])
     simp only [bstep, bdeliver]
@@ -126,6 +194,9 @@ theorem C08B_flight_untouched (b : BSt) (o : BOp) (tid : Nat) (f : Flight) (hf :
           · simp [ha]
         rw [hcong]; exact this
       | cons m rest =>
+        simp only []
+        split
+        · exact hf
         simp only [flightOf, List.find?_map]
         have hcomp : ((fun g : Flight => g.tid == tid) ∘ fun g => if (g.tid == tid') = true then { g with rem := rest } else g)
             = fun g => g.tid == tid := by
